@@ -1079,7 +1079,7 @@ func (v *FnVC) runFrame(fr *frame, entry *State, entryReach Term) {
 	for i, p := range fn.FreeVars {
 		fr.vals[p] = fr.freeVars[i]
 	}
-	if !fr.top && len(fr.loops) > 0 {
+	if !fr.top && !fr.own && len(fr.loops) > 0 {
 		panic(unsupported("inlined callee %s has loops", fn.Name()))
 	}
 	order := rpo(fn)
@@ -1195,7 +1195,7 @@ func (v *FnVC) defineVal(name string, val Val, t types.Type) Val {
 }
 
 func (v *FnVC) enterLoop(fr *frame, li *loopInfo, b *ssa.BasicBlock, st *State, reach Term) {
-	if !fr.top {
+	if !fr.top && !fr.own {
 		panic(unsupported("loop in inlined function"))
 	}
 	// 1. pre-state values of phis (entry edges)
@@ -1281,6 +1281,14 @@ func (v *FnVC) enterLoop(fr *frame, li *loopInfo, b *ssa.BasicBlock, st *State, 
 			}
 		}
 		v.havocEmits(st, fm, top)
+		for k := range st.ghost {
+			if strings.HasPrefix(k, "eh#") {
+				old := st.ghost[k]
+				n := v.sc.Fresh("eh", SInt)
+				v.sc.Assert(Le(old, n))
+				st.ghost[k] = n
+			}
+		}
 	}
 	ov2 := map[string]Val{}
 	for _, phi := range phis {
